@@ -239,6 +239,9 @@ def _precedence(P, R):
         R.violate("c", "precedence:not", "`!` is handled before the binary splits: `!a && b` would parse as !(a && b)", f)
     # outer parentheses stripped only when the inner text is balanced
     bal = [c for c in f.calls() if c.resolved == GP + "::is_balanced_parentheses" and c.bb in f.normal_blocks()]
+    # ... or inside a closure handed to Option::filter (`.strip_prefix('(').and_then(..).filter(|inner| self.is_balanced_parentheses(inner))`)
+    bal += [c for g_ in P.closures_of(f) for c in g_.calls() if c.resolved == GP + "::is_balanced_parentheses" and c.bb in g_.normal_blocks()
+            and any(cc.name.endswith("Option::filter") and any(x[0] == "agg" and x[1] == "closure:" + g_.name for a_ in cc.args for x in walk(f.sym_operand(a_))) for cc in f.calls())]
     if bal:
         R.hold("c", "outer parentheses are stripped only under is_balanced_parentheses(inner)", fn=f)
     else:
